@@ -11,6 +11,10 @@
             reaching any module)                                                         -> KnownFail 1 k
      (a) the MODEL: the same router run over the routing tables REGENERATED from app.rs / contracts.rs
                                                                                          -> Disagree k
+   Every origin is covered by the same clause "the sender recorded by the module = i_sender": the harness
+   sets i_sender to the digest of the EMITTING contract's address (instantiate / execute / migrate / sudo /
+   reply entry points alike), of the user at top level.  A funded WasmMsg::Execute / Instantiate (PFunded)
+   must show the recording bank's Send record before the callee's own record iff the funds are non-empty.
    k: 0.. = index of the first differing log entry, 100 = outcome of the call, 200.. = what a caller saw,
       300 = the earlier write, 400 = the modules' markers.
    This file holds definitions and lemmas that do not depend on the content of a generated table. *)
@@ -31,9 +35,9 @@ Definition tx_eqb (lenient : bool) (expected observed : res) : bool :=
   res_eqb expected observed || (lenient && match expected, observed with RPanic, RErr => true | _, _ => false end).
 Definition seen_eqb (a b : N * res) : bool := (fst a =? fst b) && res_eqb (snd a) (snd b).
 Definition key_eqb (a b : N * N) : bool := (fst a =? fst b) && (snd a =? snd b).
-(* markers are compared as sets (the harness lists them in storage order) *)
-Definition keys_eqb (a b : list (N * N)) : bool :=
-  Nat.eqb (List.length a) (List.length b) && incl_b key_eqb a b && incl_b key_eqb b a.
+(* markers are compared as SETS: the harness lists them in storage order, and two funded messages with the
+   same callee and the same coins make the bank write the same marker twice *)
+Definition keys_eqb (a b : list (N * N)) : bool := incl_b key_eqb a b && incl_b key_eqb b a.
 
 Definition obs_diff (lenient : bool) (expected observed : obs) : option N :=
   match first_diff entry_eqb (o_log expected) (o_log observed) 0 with
@@ -78,7 +82,7 @@ Proof.
   unfold incl_b. apply forallb_forall. intros x Hx. apply existsb_exists. exists x. auto.
 Qed.
 Lemma keys_eqb_refl a : keys_eqb a a = true.
-Proof. unfold keys_eqb. rewrite Nat.eqb_refl, (incl_b_refl key_eqb key_eqb_refl). reflexivity. Qed.
+Proof. unfold keys_eqb. rewrite (incl_b_refl key_eqb key_eqb_refl). reflexivity. Qed.
 
 Lemma obs_diff_refl lenient a : obs_diff lenient a a = None.
 Proof.
@@ -92,12 +96,12 @@ Qed.
    (hypotheses discharged in Inst17.v by closed computation on Generated.v) *)
 Lemma no_dq_f11_is_spec inp : has_distribution_query inp = false -> run f11_routes inp = run spec_routes inp.
 Proof.
-  intros H. apply run_ext. intros p Hp. destruct p as [k x c|k x c].
-  - repeat split; reflexivity.
-  - destruct k; try reflexivity. exfalso.
-    unfold has_distribution_query in H. assert (E : existsb (fun p => match p with PQuery QDistribution _ _ => true | _ => false end) (i_probes inp) = true).
-    { apply existsb_exists. exists (PQuery QDistribution x c). auto. }
-    congruence.
+  intros H. apply run_ext. split; [reflexivity|]. split; [reflexivity|].
+  intros p Hp. destruct p as [k x c|k x c|ins fc sp cp c]; auto.
+  destruct k; try reflexivity. exfalso.
+  unfold has_distribution_query in H. assert (E : existsb (fun p => match p with PQuery QDistribution _ _ => true | _ => false end) (i_probes inp) = true).
+  { apply existsb_exists. exists (PQuery QDistribution x c). auto. }
+  congruence.
 Qed.
 
 Lemma c17_model_ok_gen :
